@@ -736,6 +736,15 @@ pub fn shard_run_grammar(prop: &str, tier: &str, seed: u64, replay_case: Option<
             }
         }
     }
+    // ---- a sample of the grammar over a real socket (actix's HTTP/1 codec in the path), including
+    // requests the in-process request type cannot express
+    if replay_case.is_none() && shard.k == (2 % shard.n) {
+        if let Some(f) = socket_sample(prop, seed, if thorough { 6000 } else { 400 }, &grams, &mut cov, &mut out.errors) {
+            out.found.push(f);
+            out.cov = cov;
+            return out;
+        }
+    }
     // C20 also rides on protocol histories (all outcome kinds through the handlers)
     if prop == "C20" && replay_case.is_none() {
         let n_hist = if thorough { 400 } else { 24 };
@@ -1081,4 +1090,75 @@ pub fn finalize_c16(out: ShardOut, is_replay: bool) -> CheckResult {
         level: "exploration",
         notes: vec![],
     }
+}
+
+/// Grammar sample over TCP against an in-process `HttpServer` (in-memory backend).
+fn socket_sample(prop: &str, seed: u64, n: usize, grams: &[Gram], cov: &mut Cov, errors: &mut Vec<String>) -> Option<Found> {
+    use crate::http::{socket_request, Framing};
+    use crate::net::SockServer;
+    use std::time::Duration;
+    use taskchampion_sync_server::WebServer;
+    use taskchampion_sync_server_core::InMemoryStorage;
+    // a fixture only to obtain ids / request shapes; the socket server has its own storage with the
+    // same kind of content built over the socket
+    let fx = match Fixture::new(Backend::Mem, seed, None) {
+        Ok(f) => f,
+        Err(e) => {
+            errors.push(format!("fixture: {e:#}"));
+            return None;
+        }
+    };
+    let web = WebServer::new(Config { snapshot_days: 14, snapshot_versions: 4 }.to_server(), None, InMemoryStorage::new());
+    let srv = match SockServer::start(web, 3) {
+        Ok(s) => s,
+        Err(e) => {
+            errors.push(format!("socket server: {e}"));
+            return None;
+        }
+    };
+    let mut rng = Rng::new(seed).fork(0x50C);
+    let to = Duration::from_secs(20);
+    let mut extra: Vec<HttpReq> = vec![
+        HttpReq::new("GET", "/v1/client/snapshot").header_bytes("X-Client-Id", &[0xff, 0xfe]),
+        HttpReq::new("GET", "/v1/client/get-child-version/%zz").header("X-Client-Id", &fx.clients[0].to_string()),
+        HttpReq::new("GET", "/v1/client/get-child-version/a b").header("X-Client-Id", &fx.clients[0].to_string()),
+        HttpReq::new("GE T", "/"),
+        HttpReq::new("GET", &format!("/{}", "a".repeat(70_000))),
+        HttpReq::new("POST", "/v1/client/add-version/00000000-0000-0000-0000-000000000000").header("X-Client-Id", &fx.clients[0].to_string()).header("Content-Type", CT_HISTORY).header("Content-Length", "abc"),
+        HttpReq::new("GET", "/").header(&"X-Long".to_string(), &"v".repeat(200_000)),
+    ];
+    let mut sent = 0usize;
+    for i in 0..n {
+        let g = grams[rng.usize(grams.len())];
+        let req = if i % 50 == 49 && !extra.is_empty() { extra.remove(0) } else { g.build(&fx, &mut rng) };
+        // replies that actix's HTTP/1 codec emits before routing (unparsable request line, invalid
+        // header bytes, oversized head) never reach the application: tallied, not judged
+        let head_len: usize = req.path.len() + req.headers.iter().map(|(k, v)| k.len() + v.len() + 4).sum::<usize>();
+        let expressible = crate::http::HttpApp::expressible(&req) && !req.headers.iter().any(|(k, _)| k == "Content-Length") && head_len < 8 * 1024;
+        let framing = if i % 2 == 0 { Framing::ContentLength } else { Framing::Chunked };
+        let resp = socket_request(&srv.addr, &req, framing, to);
+        sent += 1;
+        cov.evaluations += 1;
+        cov.hit(format!("socket|{}|status={}", if expressible { "well-formed-http" } else { "malformed-http" }, if resp.failure.is_some() { "closed".to_string() } else { resp.status.to_string() }));
+        if resp.status >= 500 && resp.failure.is_none() {
+            return Some(found(prop, format!("over a real socket, request {} was answered {}", req.describe(), resp.status), json!({"origin": "socket", "case": 40_000_000 + i})));
+        }
+        if expressible {
+            if resp.failure.is_some() && req.method != "HEAD" {
+                // the application must answer every syntactically valid request
+                if prop == "C15" {
+                    return Some(found("C15", format!("over a real socket, request {} got no response: {:?}", req.describe(), resp.failure), json!({"origin": "socket", "case": 40_000_000 + i})));
+                }
+            } else if prop == "C20" && resp.failure.is_none() && !no_store(&resp) {
+                return Some(found("C20", format!("over a real socket, the response to {} does not forbid caching: {}", req.describe(), resp.describe()), json!({"origin": "socket", "case": 40_000_000 + i})));
+            }
+        }
+    }
+    // the server must still be alive and serving
+    let r = socket_request(&srv.addr, &HttpReq::new("GET", "/"), Framing::ContentLength, to);
+    if r.status != 200 {
+        return Some(found(prop, format!("after {sent} grammar requests over a socket the server no longer answers GET / ({})", r.describe()), json!({"origin": "socket", "case": 40_000_000})));
+    }
+    cov.count("socket_requests", sent as u64);
+    None
 }
